@@ -2,6 +2,7 @@ import PP.Driver.Codec
 import PP.Model.StrDoc
 import PP.Driver.ValCodec
 import PP.Driver.RegCodec
+import PP.Driver.GraphCodec
 import PP.Model.Color
 open PP PP.Sexp
 
@@ -24,6 +25,14 @@ def handle (req : Sexp) : Sexp :=
         let out := layout cfg d
         .list [encodeSDocs out, ofStr "text" (render out)])
     | _, _ => sym "bad-request"
+  | .list (.atom "graph" :: st :: root :: nodes) =>
+    match decodeSettings st, nat? root, nodes.mapM decodeGNode with
+    | some st, some root, some nodes => ofStr "ok" (Graph.pformatG st nodes.toArray root)
+    | _, _, _ => sym "bad-request"
+  | .list (.atom "fail" :: r) =>
+    match failRequest r with
+    | some x => x
+    | none => sym "bad-request"
   | .list [.atom "color", out] =>
     match decodeSDocs out with
     | some out => .list (sym "ok" :: (Color.colorRender out).map encodeOut)
